@@ -60,4 +60,4 @@ LEMMAS = [
 
 
 def unit():
-    return Unit('lemmas', prelude=K.PRELUDE_BLOCK, spec=['steps.rs', 'ctr.rs', 'cts.rs', 'lemmas.rs'], mods=[], lemmas=LEMMAS)
+    return Unit('lemmas', prelude=K.PRELUDE_BLOCK, spec=['steps.rs', 'ctr.rs', 'cts.rs', 'lemmas.rs'], mods=K.DEPS(), lemmas=LEMMAS)
